@@ -16,12 +16,14 @@ from checks import common
 from checks import dir_common as dc
 from checks.dir_common import Run, F, D
 
-FRAGS = ['a', '.', 't', 'T', '.sol', '.SOL', '.t.sol', '.T.Sol', 'sol']
+FRAGS = ['a', '.', 't', 'T', '.sol', '.SOL', '.t.sol', '.T.Sol', 'sol', '.t', '_']
 ODD = dc.ELIG_NAMES + dc.INERT_NAMES + dc.UNDECIDED_NAMES + [
     'A.T.SOL.sol', 'x.t.sol.t.sol', '.t.sol.sol', 'a..sol', 'a.sol.sol', 'ſ.sol', 'a.ſol', 'a.t.ſol', 'a.T.sol', 'a.K.sol',
     'a.ṫ.sol', 'İ.t.sol', 'a.t.soĺ', 'a.t.sol​', 'Σ.T.SOL', 'aΣ.sol', 'x' * 200 + '.sol', 'x' * 200 + '.t.sol',
     ' .sol', '-.sol', '--help.sol', '*.sol', 'a?.sol', 'a\\b.sol', 'a\tb.sol', 'a\nb.sol', '"q".sol', "it's.sol", 'a.sol~', '#a.sol#',
-    'a.Sol', 'a.sOl', 'a.soL', 'a.t.sOl', 'a.t.soL', 'a.t.sol ', 'a.t.Sol', 'a.T.sOL', 't.sol.t', 'T.SOL', '.T.SOL', 'a.t .sol', 'a. t.sol']
+    'a.Sol', 'a.sOl', 'a.soL', 'a.t.sOl', 'a.t.soL', 'a.t.sol ', 'a.t.Sol', 'a.T.sOL', 't.sol.t', 'T.SOL', '.T.SOL', 'a.t .sol', 'a. t.sol',
+    'Vault.t_sol.sol', 'abi.tosol.sol', 'Pool.T-Sol.v2.sol', 'Vault.t sol.sol', 'a.txsol.sol', 'NOTES.SOL', 'Backup.Sol', 'blob.sOL',
+    'Caf\u00e9s.sol', '\u4ee3\u5e01.sol', 'Token\u20ac.sol', '\u00e9.t.sol', 'ab\u00e9.t.sol']
 PY_CLASS = {'inert': 0, 'eligible': 1, 'undecided': 2}
 
 
